@@ -1,0 +1,9 @@
+//! Hooks for property C39 (options): a read-only structural snapshot of a whole `Options` value.
+
+use crate::util::options::Options;
+
+/// `(option name, declared type, Debug rendering of the current value)` for every option of
+/// `options`, in declaration order.
+pub fn options_snapshot(options: &Options) -> Vec<(&'static str, &'static str, String)> {
+    options.verif_snapshot()
+}
